@@ -154,6 +154,15 @@ theorem applySetters_legal (cfg cfg' : TxCfg) (ss : List Setter) (hl : Legal cfg
     · rename_i c1 h1; exact ih c1 (applySetter_legal _ _ _ h1) h
     · simp at h
 
+theorem applySettersSkip_legal (cfg : TxCfg) (ss : List Setter) (hl : Legal cfg) : Legal (applySettersSkip cfg ss) := by
+  induction ss generalizing cfg with
+  | nil => exact hl
+  | cons s ss ih =>
+    simp only [applySettersSkip]
+    split
+    · rename_i c1 h1; exact ih c1 (applySetter_legal _ _ _ h1)
+    · exact ih cfg hl
+
 theorem mkCfg_legal (code : Bytes) (curt : Bool) (size : Nat) (cfg : TxCfg) (h : mkCfg code curt size = .ok cfg) : Legal cfg := by
   unfold mkCfg at h
   split at h
